@@ -38,6 +38,16 @@ impl Read for ScriptRead<'_> {
         if n == 0 { self.piece = 0 }
         Ok(n)
     }
+    /// Native scatter read (sockets, files): the same scripted delivery, filling the buffers in order - it may end anywhere,
+    /// also inside a later buffer. (std's default would only ever touch the first non-empty buffer.)
+    fn read_vectored(&mut self, bufs: &mut [io::IoSliceMut<'_>]) -> io::Result<usize> {
+        let total: usize = bufs.iter().map(|b| b.len()).sum();
+        let mut tmp = vec![0u8; total];
+        let n = self.read(&mut tmp)?;
+        let mut at = 0;
+        for b in bufs.iter_mut() { if at >= n { break } let k = b.len().min(n - at); b[.. k].copy_from_slice(&tmp[at .. at + k]); at += k }
+        Ok(n)
+    }
 }
 
 fn read_one<R: Read>(r: &mut Reader<R>, k: Kind) -> Result<Option<Val>, Error> {
